@@ -2,7 +2,7 @@ SPECIFICATION Spec
 CONSTANTS
   PathVars = 2
   QueryParams = 8
-  BodyLeaves = 8
+  BodyLeaves = 12
   Impl = "partial"
   PanicAt = {"find", "session", "auth", "media", "perms", "params", "body", "validate", "handler", "log"}
   RecoverySettings = {TRUE, FALSE}
